@@ -218,8 +218,13 @@ class IsarParser(object):
         # so it's OK to encode the data back into utf-8 before parsing
         content = content.encode('utf-8')
 
-        def collect():
+        try:
             root = ElementTree.fromstring(content)
+        except (ElementTree.ParseError, ValueError, LookupError) as e:
+            # expat reports malformed documents, unsupported and unknown encodings through these three
+            raise model.ParseError([("isar", "malformed xml: %s" % e)])
+
+        def collect():
             for xml_elem in root.iterfind('.//*[@href]'):
                 yield make_include(xml_elem, process_file, self.warn)
 
